@@ -111,7 +111,10 @@ struct lin_record {
   int j1, j2; /* iterations of the two reduction loops */
 } G;
 
-#define BRG(i) (P.atan2_ret[i] >= 0 ? P.atan2_ret[i] : P.atan2_ret[i] + 2 * M_PI) /* bearing.cpp: s >= 0 ? s : s + 2*M_PI */
+/* gama's bearing: atan2 mapped to the half-open circle [0, 2pi).  (theta + 2pi rounds to exactly 2pi for a tiny
+   negative theta; that value is 0.  The repository did not do this before its commit 02c5215.) */
+#define BRG0(i) (P.atan2_ret[i] >= 0 ? P.atan2_ret[i] : P.atan2_ret[i] + 2 * M_PI)
+#define BRG(i) (BRG0(i) >= 2 * M_PI ? 0.0 : BRG0(i))
 
 double lin_sqrt(double x)
 {
